@@ -2,6 +2,7 @@ package main
 
 import (
 	"bytes"
+	"path/filepath"
 	"encoding/json"
 	"fmt"
 	"os"
@@ -26,6 +27,7 @@ type crashOpts struct {
 	allTorn bool
 	sameMs  bool // back-to-back failed + successful transactions
 	wmerge  bool // Merge calls in the workload, crash points everywhere
+	many    bool // small segments; the first Merge waits until more than ten data files exist (file ids of different lengths)
 }
 
 type imgResult struct {
@@ -102,6 +104,9 @@ func (g *gen) histCrash(o crashOpts) {
 		g.u = &hx.Universe{KvBuckets: []string{"b1", "b2"}}
 	}
 	seg := int64(192 + g.r.Intn(4)*96)
+	if o.many {
+		seg = 160
+	}
 	dir := fmt.Sprintf("%s/db-%d", g.c.Tmp, g.hist)
 	os.RemoveAll(dir)
 	obs := hx.NewFSObs(dir)
@@ -160,7 +165,17 @@ func (g *gen) histCrash(o crashOpts) {
 			break
 		}
 		if (o.merges || o.wmerge) && g.r.Intn(100) < 25 {
-			g.s.MergeObs(dir + "-shadow")
+			nfiles := 0
+			if ents, err := os.ReadDir(dir); err == nil {
+				for _, en := range ents {
+					if filepath.Ext(en.Name()) == ".dat" {
+						nfiles++
+					}
+				}
+			}
+			if !o.many || nfiles > 10 {
+				g.s.MergeObs(dir + "-shadow")
+			}
 		}
 		if g.r.Intn(10) == 0 {
 			g.s.Close()
